@@ -29,7 +29,7 @@ echo "== demo WITH the change" >> $OUT; run_demo >> $OUT 2>&1
 if [ "${SKIP_SUITE:-0}" = "0" ]; then
 echo "== repository suite WITH the change" >> $OUT
 cargo nextest run --workspace --no-fail-fast --test-threads 6 --offline > $D/suite.confirm.log 2>&1
-grep "Summary" $D/suite.confirm.log >> $OUT
+grep "Summary" $D/suite.confirm.log >> $OUT || echo "SUITE DID NOT RUN (see suite.confirm.log)" >> $OUT
 grep "^        FAIL" $D/suite.confirm.log | sed 's/.*) //' | sort -u > $D/suite.fails.txt
 python3 - $D/suite.fails.txt >> $OUT <<'PY'
 import json,sys
